@@ -1001,9 +1001,9 @@ func c13GenWire(r *Rand) *c13In {
 			addPair(kl, vl)
 			tot += kl + vl + 8
 		}
-	case 8: // value far too long (silently cut by the code; outside the property's premise)
+	case 8: // value far too long (cut by the code; outside the property's premise)
 		addPair(r.Range(1, 200), 65500+r.Range(0, 3000))
-	case 9: // name too long for the cut (panics; outside the premise)
+	case 9: // name that leaves no room for the value (value cut to nothing, the name spans records; outside the premise)
 		if r.Chance(30) {
 			addPair(65493+r.Intn(10), r.Range(0, 20))
 		} else {
@@ -1332,7 +1332,7 @@ func c13GenServe(r *Rand) *c13In {
 		in.Fields = append(in.Fields, [2]string{r.Pick([]string{"Status", "Status", "status", "STATUS"}),
 			r.Pick([]string{"200 OK", "404 Not Found", "302 Found", "500 Internal Server Error", "201", "403 Forbidden", "200", "418 I'm a teapot"})})
 	} else if r.Chance(4) {
-		in.Fields = append(in.Fields, [2]string{"Status", r.Pick([]string{"abc", "OK 200"})})
+		in.Fields = append(in.Fields, [2]string{"Status", r.Pick([]string{"abc", "OK 200", "99 Low", "1000", "0"})}) // not a code WriteHeader accepts: 502
 	}
 	fpool := [][2]string{{"Content-Type", "text/html; charset=UTF-8"}, {"content-type", "application/json"}, {"X-Powered-By", "PHP/8.2.1"},
 		{"Set-Cookie", "sid=abc; Path=/"}, {"Set-Cookie", "theme=dark"}, {"Location", "/app/login.php?next=%2F"},
